@@ -48,6 +48,16 @@ Theorem C04_index_reencode : forall (d : digest) (b : bytes) (i : index),
 Proof. exact index_reencode. Qed.
 Print Assumptions C04_index_reencode.
 
+(* The same with "canonical" judged by the independent reader: a file of real bytes that
+   IndexFromReader accepts and that [parse_layout] reads at the fixed caibx offsets (exact length
+   104+40k, k non-zero end offsets, tail 0,0,..,..,marker) with tail fields (48, length-48) is
+   reproduced byte for byte -- this is what the casync-made testdata files are checked against. *)
+Theorem C04_index_reencode_layout : forall (d : digest) (b : bytes) (i : index) (l : layout),
+  wf_bytes b -> decode_index d b = Ok i -> parse_layout b = Some l -> canonical_tail b l = true ->
+  encode_index i = b.
+Proof. exact index_reencode_layout. Qed.
+Print Assumptions C04_index_reencode_layout.
+
 (* Truncation: every strict prefix of ANY file that IndexFromReader accepts and reads to its last
    byte is rejected ... *)
 Theorem C04_index_rejects_prefix_of_accepted : forall (d : digest) (b : bytes) (i : index),
@@ -71,37 +81,53 @@ Proof. exact index_rejects_digest_mismatch. Qed.
 Print Assumptions C04_index_rejects_digest_mismatch.
 
 (* A table in which row j ends more than ChunkSizeMax after row j-1 is rejected (any rows before and
-   after, any trailing bytes). *)
+   after, any trailing bytes); the error is one of the two table errors (an earlier row may already
+   have been refused). *)
 Theorem C04_index_rejects_oversize : forall d h ff mn av mx th items rest j,
   wf_elem (Index h ff mn av mx) -> digest_ok d ff = true -> wf_elem (Table th items) ->
   (j < length items)%nat ->
   prev_offset j items <= fst (nth j items (0, [])) ->
   mx < fst (nth j items (0, [])) - prev_offset j items ->
-  decode_index d (encode_elem (Index h ff mn av mx) ++ encode_elem (Table th items) ++ rest) = Err ChunkTooLarge.
+  exists e, decode_index d (encode_elem (Index h ff mn av mx) ++ encode_elem (Table th items) ++ rest) = Err e /\
+            table_error e.
 Proof. exact index_rejects_oversize. Qed.
 Print Assumptions C04_index_rejects_oversize.
 
-(* A table in which row j ends BEFORE row j-1 is rejected -- through the unsigned wrap of
-   r.Offset - lastOffset -- exactly when 2^64 - (drop) exceeds ChunkSizeMax. *)
+(* A table in which row j ends BEFORE row j-1 is rejected, whatever the declared ChunkSizeMax. *)
 Theorem C04_index_rejects_decreasing : forall d h ff mn av mx th items rest j,
   wf_elem (Index h ff mn av mx) -> digest_ok d ff = true -> wf_elem (Table th items) ->
   (j < length items)%nat ->
   fst (nth j items (0, [])) < prev_offset j items ->
-  mx < two64 - (prev_offset j items - fst (nth j items (0, []))) ->
-  decode_index d (encode_elem (Index h ff mn av mx) ++ encode_elem (Table th items) ++ rest) = Err ChunkTooLarge.
+  exists e, decode_index d (encode_elem (Index h ff mn av mx) ++ encode_elem (Table th items) ++ rest) = Err e /\
+            table_error e.
 Proof. exact index_rejects_decreasing. Qed.
 Print Assumptions C04_index_rejects_decreasing.
 
-(* ---- the complementary corner is real: with a declared maximum within the drop of 2^64 a
-        decreasing table is accepted, with a wrapped chunk size (known finding) ---- *)
+(* Hence nothing that misdescribes a blob comes out: every index IndexFromReader returns for a file of
+   real bytes is in WriteTo's domain -- Start = sum of the preceding sizes, every size <= max, total
+   < 2^64, 32-byte ids, first chunk not empty (so C04_index_roundtrip applies to it again). *)
+Theorem C04_index_accepted_wf : forall (d : digest) (b : bytes) (i : index) (rest : bytes),
+  wf_bytes b -> decode_index_rest d b = Ok (i, rest) -> wf_index i.
+Proof. exact index_accepted_wf. Qed.
+Print Assumptions C04_index_accepted_wf.
+
+(* ---- before commit "fix: index reader rejects decreasing chunk offsets ..." the decreasing case was
+        only caught through the unsigned wrap of r.Offset - lastOffset exceeding max: with a declared
+        maximum within the drop of 2^64 such a table was accepted, with a wrapped chunk size.  The
+        reader as it was ([decode_index_prefix]) accepts this file; the current one refuses it. ---- *)
 Definition ex_id (x : N) : bytes := repeat x 32.
 Definition ex_corner_file : bytes :=
   encode_elem (Index (mkHeader 48 CaFormatIndex) 0 1 2 MaxUint64) ++
   encode_elem (Table (mkHeader MaxUint64 CaFormatTable) [(100, ex_id 1); (50, ex_id 2)]).
 Example C04_index_decreasing_corner_refuted :
-  decode_index SHA256 ex_corner_file =
-  Ok (mkIndex 0 1 2 MaxUint64 [(ex_id 1, 0, 100); (ex_id 2, 100, two64 - 50)]).
-Proof. vm_compute. reflexivity. Qed.
+  decode_index_prefix SHA256 ex_corner_file =
+    Ok (mkIndex 0 1 2 MaxUint64 [(ex_id 1, 0, 100); (ex_id 2, 100, two64 - 50)], []) /\
+  ~ wf_index (mkIndex 0 1 2 MaxUint64 [(ex_id 1, 0, 100); (ex_id 2, 100, two64 - 50)]) /\
+  decode_index SHA256 ex_corner_file = Err DecreasingOffset.
+Proof.
+  split; [vm_compute; reflexivity|]. split; [|vm_compute; reflexivity].
+  intros [_ _ _ _ _ _ Htot _ _]. vm_compute in Htot. discriminate.
+Qed.
 
 (* ---- non-vacuity ---- *)
 Definition ex_index : index :=
